@@ -396,8 +396,8 @@ pub fn check_recovery(c: &Case) -> Outcome {
 }
 
 fn run(ctx: &Ctx) {
-    ctx.run_sub("history", ctx.tier.pick(3_000, 60_000), strategy, check);
-    ctx.run_sub("recovery", ctx.tier.pick(1_500, 30_000), recovery_strategy, check_recovery);
+    ctx.run_sub("history", ctx.tier.pick(8_000, 100_000), strategy, check);
+    ctx.run_sub("recovery", ctx.tier.pick(4_000, 50_000), recovery_strategy, check_recovery);
 }
 
 fn replay(ctx: &Ctx, sub: &str, case: &Value) -> Result<Outcome, String> {
